@@ -237,7 +237,7 @@ theorem pumpInv_handleMsgs (ms : List Msg) (e : Ep) (hi : PumpInv e) : PumpInv (
     unfold handleMsgs
     split
     · exact hi
-    · exact ih _ (pumpInv_handleMsg e m hi)
+    · exact ih _ (pumpInv_handleMsg _ m (pumpInv_of_view (e := e) rfl hi))
 
 theorem pumpInv_recvRaw (e : Ep) (c : Bytes) (hi : PumpInv e) : PumpInv (recvRaw e c).1 := by
   unfold recvRaw
